@@ -126,6 +126,9 @@ func (d *CLIDevice) React(in []byte) []byte {
 	return out
 }
 
+// PendingLine returns the bytes of an input line that has not been ended by a return yet.
+func (d *CLIDevice) PendingLine() string { return string(d.line) }
+
 // NonEmptyLines returns the non-empty lines received, in order.
 func (d *CLIDevice) NonEmptyLines() []string {
 	var out []string
